@@ -358,6 +358,10 @@ pub fn with_recording<R>(f: impl FnOnce() -> R) -> R {
 pub enum Policy {
     /// uniformly random among enabled threads
     Random,
+    /// random, but a thread that has just written shared memory (store, swap, successful CAS) is
+    /// held back for a few steps with high probability: other threads get to look at the state
+    /// *between* two consecutive writes of one thread (publish-then-link, forward-then-fill windows)
+    RandomAfterWrite,
     /// PCT: random priorities, `d` priority change points at random steps
     Pct { d: usize, horizon: usize },
     /// run thread 0 .. n-1 to completion in order (sequential baseline)
@@ -437,6 +441,7 @@ pub fn drive(s: &Arc<Sched>, policy: &Policy, rng: &mut crate::types::Rng, budge
     let mut solo_steps: Option<usize> = None;
     let mut solo_blocked: Option<String> = None;
     let mut solo_done = false;
+    let mut hold: Option<(usize, usize)> = None; // (thread held back, steps left)
     let mut script_pos = 0usize;
     // steps spent in the current script step: a step whose thread only spins (it waits for a
     // thread the script holds back) is abandoned after a while
@@ -454,12 +459,12 @@ pub fn drive(s: &Arc<Sched>, policy: &Policy, rng: &mut crate::types::Rng, budge
                 .collect();
             return RunOutcome { deadlock: true, budget_exceeded: false, steps, schedule, blocked, solo_steps, solo_blocked };
         }
-        if steps >= budget && !matches!(policy, Policy::RoundRobin | Policy::Random) && !fair_phase {
+        if steps >= budget && !matches!(policy, Policy::RoundRobin | Policy::Random | Policy::RandomAfterWrite) && !fair_phase {
             // priority schedules are unfair by design: finish under a fair policy before
             // calling anything a livelock
             fair_phase = true;
         }
-        if steps >= 2 * budget || (steps >= budget && matches!(policy, Policy::RoundRobin | Policy::Random)) {
+        if steps >= 2 * budget || (steps >= budget && matches!(policy, Policy::RoundRobin | Policy::Random | Policy::RandomAfterWrite)) {
             let blocked = unfinished
                 .iter()
                 .map(|t| (*t, s.pending_of(*t).map(|p| format!("{:?} {} at {}:{}", p.kind, p.what, p.file, p.line)).unwrap_or_default()))
@@ -525,6 +530,16 @@ pub fn drive(s: &Arc<Sched>, policy: &Policy, rng: &mut crate::types::Rng, budge
                 }
             }
             Policy::Random => en[rng.below(en.len() as u64) as usize],
+            Policy::RandomAfterWrite => {
+                let others: Vec<usize> = match hold {
+                    Some((t, left)) if left > 0 => en.iter().copied().filter(|x| *x != t).collect(),
+                    _ => vec![],
+                };
+                if let Some((t, left)) = hold {
+                    hold = if left > 1 { Some((t, left - 1)) } else { None };
+                }
+                if !others.is_empty() { others[rng.below(others.len() as u64) as usize] } else { en[rng.below(en.len() as u64) as usize] }
+            }
             Policy::Sequential => en[0],
             Policy::RoundRobin => {
                 rr += 1;
@@ -541,6 +556,15 @@ pub fn drive(s: &Arc<Sched>, policy: &Policy, rng: &mut crate::types::Rng, budge
             }
         } };
         s.step(pick);
+        if matches!(policy, Policy::RandomAfterWrite) && hold.is_none() {
+            let wrote = {
+                let g = s.inner.lock().unwrap();
+                g.trace.last().map(|e| e.tid == pick && (matches!(e.kind, Kind::Store | Kind::Swap) || (e.kind == Kind::Cas && e.ok)) && e.what.contains("::")).unwrap_or(false)
+            };
+            if wrote && rng.chance(3, 4) {
+                hold = Some((pick, 1 + rng.below(8) as usize));
+            }
+        }
         schedule.push(pick);
         steps += 1;
     }
